@@ -47,7 +47,9 @@ for d in "$@"; do
   (cd $V/harness && cargo build 2>&1 | grep -E "^error" -A 8)
   json="{"
   first=1
-  for c in $(related $prop); do
+  # a file EXTRA_CHECKS in the directory names further checks to run for this change (one that breaks its property through
+  # another property's territory)
+  for c in $(related $prop) $(cat $d/EXTRA_CHECKS 2>/dev/null); do
     case "$c" in C05|C13|C14) (cd $V/harness && cargo build --offline --manifest-path $R/watchtower-plugin/Cargo.toml --features verif --bin watchtower-client --target-dir $V/harness/target/repo-bins 2>&1 | grep -E "^error" -A 8);; esac
     if [ "$c" = "C01" ] || [ "$c" = "C03" ] || [ "$c" = "C12" ]; then (cd $V/harness && cargo build --offline --manifest-path $R/teos/Cargo.toml --features verif --bin teosd --target-dir $V/harness/target/repo-bins 2>&1 | grep -E "^error" -A 8); fi
     out=$(cd $V/harness && VERIF_CLIENT_BIN=$V/harness/target/repo-bins/debug/watchtower-client VERIF_TEOSD_BIN=$V/harness/target/repo-bins/debug/teosd VERIF_DIR=/var/tmp/cm/out timeout 1500 ./target/debug/verif $c --tier quick 2>&1)
